@@ -3,7 +3,7 @@ import sys, os, re, importlib.util
 HERE = os.path.dirname(os.path.abspath(__file__))
 sys.path.insert(0, os.path.dirname(HERE))
 from unitlib import Unit, ClassInfo, norm
-from cxx2c import ExtractError
+from cxx2c import ExtractError, find_function
 from prove import Group
 import common
 from common import BB_H, BB_C, POS_H, POS_C
@@ -84,14 +84,34 @@ def build():
     P(MG_H, 'MoveGen::addPawnDoubleMovesByMask', as_static=True)
     P(MG_H, 'MoveGen::addPawnMovesByMask', template=True, tsubst={'wtm': 'true'}, suffix='_w', as_static=True)
     P(MG_H, 'MoveGen::addPawnMovesByMask', template=True, tsubst={'wtm': 'false'}, suffix='_b', as_static=True)
-    # pawn section of checkEvasions<wtm> as a fragment (both colours): statements from the pawn bitboard to the end of the generator
-    EV_START = r'const U64 pawns = '
+    # MoveGen::checkEvasions<wtm> is verified as three contiguous fragments that tile its body (head: target filter; pieces: queen, rook,
+    # bishop, king, knight sections; pawns: pawn section) plus a generated composition function whose own first statement is the
+    # generator's first statement.  The tiling (nothing between / before / after the fragments except the pinned text) is checked here.
+    EV_KW = dict(within='MoveGen::checkEvasions', within_kw=dict(nparams=2, template=True))
+    A_HEAD, A_PIECES, A_PAWNS, A_END = r'const Square kingSq = pos\.getKingSq\(wtm\);', r'U64 squares = pos\.pieceTypeBB\(MyColor::QUEEN\);', r'const U64 pawns = ', r'#ifdef MOVELIST_DEBUG'
+    ev = find_function(U.src(MG_C), 'MoveGen::checkEvasions', nparams=2, template=True)
+    mh = re.search(A_HEAD, ev.body)
+    if not mh or norm(ev.body[:mh.start()]) != 'using MyColor = ColorTraits<wtm>; using OtherColor = ColorTraits<!wtm>; const U64 occupied = pos.occupiedBB();':
+        raise ExtractError('tiling pin changed: statements of MoveGen::checkEvasions before the king-threat computation')
+    me = re.search(A_END, ev.body)
+    if not me or not re.match(r'#ifdef MOVELIST_DEBUG\b[^#]*#endif\s*$', ev.body[me.start():], re.S):
+        raise ExtractError('tiling pin changed: MoveGen::checkEvasions has code after the pawn section other than the MOVELIST_DEBUG block')
+    if re.search(r'^\s*#\s*define\s+MOVELIST_DEBUG', U.src(MG_C).text, re.M):
+        raise ExtractError('MOVELIST_DEBUG is defined: the debug block of checkEvasions would be compiled in')
+    USING = 'using MyColor = ColorTraits<wtm>;\nusing OtherColor = ColorTraits<!wtm>;\n'
     for sfx, val in (('_w', 'true'), ('_b', 'false')):
-        fr = U.fragment(MG_C, 'MoveGen_checkEvasions_pawns' + sfx, EV_START, r'#ifdef MOVELIST_DEBUG', within='MoveGen::checkEvasions', within_kw=dict(nparams=2, template=True),
-                        params=[('Position', 'pos', True), ('MoveList', 'moveList', True), ('U64', 'validTargets', False), ('U64', 'occupied', False)],
-                        cls='MoveGen', is_static=True, tsubst={'wtm': val}, prologue='using MyColor = ColorTraits<wtm>;\n')
-        fr.tsubst = {'wtm': val}
-        U.tr.aliases_for = getattr(U.tr, 'aliases_for', {})
+        fh = U.fragment(MG_C, 'MoveGen_checkEvasions_head' + sfx, A_HEAD, A_PIECES, params=[('Position', 'pos', True), ('U64', 'occupied', False)], ret='U64',
+                   cls='MoveGen', is_static=True, tsubst={'wtm': val}, prologue=USING, epilogue='\n    return validTargets;\n', **EV_KW)
+        fp = U.fragment(MG_C, 'MoveGen_checkEvasions_pieces' + sfx, A_PIECES, A_PAWNS, params=[('Position', 'pos', True), ('MoveList', 'moveList', True), ('U64', 'validTargets', False), ('U64', 'occupied', False)],
+                   cls='MoveGen', is_static=True, tsubst={'wtm': val}, prologue=USING, **EV_KW)
+        fw = U.fragment(MG_C, 'MoveGen_checkEvasions_pawns' + sfx, A_PAWNS, A_END, params=[('Position', 'pos', True), ('MoveList', 'moveList', True), ('U64', 'validTargets', False), ('U64', 'occupied', False)],
+                   cls='MoveGen', is_static=True, tsubst={'wtm': val}, prologue=USING, **EV_KW)
+        for fr in (fh, fp, fw):   # make the fragments callable from the composition function
+            U.tr.classes['MoveGen'].methods.setdefault((fr.cname, len(fr.params), False), {})[''] = fr
+        # composition: the generator's own first statement followed by calls of the three fragments in source order
+        U.fragment(MG_C, 'MoveGen_checkEvasions_tiled' + sfx, r'const U64 occupied = pos\.occupiedBB\(\);', A_HEAD, params=[('Position', 'pos', True), ('MoveList', 'moveList', True)],
+                   cls='MoveGen', is_static=True, tsubst={'wtm': val},
+                   epilogue='\n    U64 validTargets = MoveGen_checkEvasions_head%s(pos, occupied);\n    MoveGen_checkEvasions_pieces%s(pos, moveList, validTargets, occupied);\n    MoveGen_checkEvasions_pawns%s(pos, moveList, validTargets, occupied);\n' % (sfx, sfx, sfx), **EV_KW)
     for gen in ('pseudoLegalMoves', 'checkEvasions', 'pseudoLegalCaptures', 'pseudoLegalCapturesAndChecks'):
         P(MG_C, 'MoveGen::' + gen, nparams=2, template=True, tsubst={'wtm': 'true'}, suffix='_w', as_static=True)
         P(MG_C, 'MoveGen::' + gen, nparams=2, template=True, tsubst={'wtm': 'false'}, suffix='_b', as_static=True)
@@ -217,12 +237,14 @@ static U64 spec_evasion_targets(const struct Position* p) {
     return c | spec_between(spec_king_sq(p->squares, p->whiteMove), spec_lowest(c)); }
 /* candidate evasions: pseudo-legal moves that are king steps, moves to a target square, or en-passant captures
    (the list still has to pass the legality filter, as in the engine) */
-static _Bool spec_evasion_candidate(const struct Position* p, const struct Move* m) {
+static _Bool spec_evasion_candidate_vt(const struct Position* p, const struct Move* m, U64 vt) {
     if (!spec_pseudo_legal(p, m)) return 0;
     int pc = p->squares[m->from_];
     if (pc == Piece_WKING || pc == Piece_BKING) return !(m->to_ == m->from_ + 2 || m->to_ == m->from_ - 2);
     if ((pc == Piece_WPAWN || pc == Piece_BPAWN) && m->to_ == p->epSquare && (m->to_ & 7) != (m->from_ & 7)) return 1;
-    return (spec_evasion_targets(p) & BITM(m->to_)) != 0; }
+    return (vt & BITM(m->to_)) != 0; }
+static _Bool spec_evasion_candidate(const struct Position* p, const struct Move* m) { return spec_evasion_candidate_vt(p, m, spec_evasion_targets(p)); }
+#define GM_FROM_PAWN(p) ((p)->squares[ghost_m.from_] == Piece_WPAWN || (p)->squares[ghost_m.from_] == Piece_BPAWN)
 /* per piece kind: is ghost_m the move "piece of that kind on ghost_m.from_ goes to ghost_m.to_" as the generator should emit it,
    given the target filter tg (all ones for the plain generator) */
 static _Bool spec_gm_slider(const struct Position* p, int kind, U64 tg) {
@@ -375,14 +397,37 @@ for _k in ('MoveGen_checkEvasions_w', 'MoveGen_checkEvasions_b'):
     # ghost values are *defined* by (assumed) equalities in the precondition: spec functions must not be called from ghost code in the body
     CONTRACTS[_k]['requires'] += CONTRACTS[_k].pop('ghost_defs')
 
+_EVPRE = ['__CPROVER_is_fresh(pos, sizeof(*pos))', 'wf_bb(pos)', 'FLAGS_OK(pos)', 'men_ok(pos)', 'wf_rights(pos)', '!spec_in_check_b(pos->squares, !pos->whiteMove)']
 for _sfx, _me in (('_w', 1), ('_b', 0)):
+    _pre = _EVPRE + ['pos->whiteMove == %d' % _me]
+    _mpre = _pre + ['__CPROVER_is_fresh(moveList, sizeof(*moveList))', 'occupied == spec_occ(pos->squares)', 'GM_OK', '0 <= ghost_hits && ghost_hits < 1000']
+    # head: the target filter is "capture the single checker or interpose", empty in double check or when not in check
+    CONTRACTS['MoveGen_checkEvasions_head' + _sfx] = {
+        'requires': _pre + ['occupied == spec_occ(pos->squares)'], 'assigns': [],
+        'ensures': ['__CPROVER_return_value == spec_evasion_targets(pos)']}
+    # pawn section: exactly the pawn moves among the evasion candidates for the given target filter, each once
     CONTRACTS['MoveGen_checkEvasions_pawns' + _sfx] = {
-        'requires': ['__CPROVER_is_fresh(pos, sizeof(*pos))', '__CPROVER_is_fresh(moveList, sizeof(*moveList))', 'wf_bb(pos)', 'FLAGS_OK(pos)', 'men_ok(pos)', 'wf_rights(pos)',
-                     'pos->whiteMove == %d' % _me, 'occupied == spec_occ(pos->squares)', '!spec_in_check_b(pos->squares, !pos->whiteMove)', 'GM_OK', '0 <= ghost_hits && ghost_hits < 1000'],
+        'requires': _mpre, 'assigns': ['moveList->size', 'ghost_hits'],
+        'ensures': ['ghost_hits == __CPROVER_old(ghost_hits) + (spec_pawn_evasion(pos, &ghost_m, validTargets) ? 1 : 0)',
+                    'ghost_hits == __CPROVER_old(ghost_hits) + ((GM_FROM_PAWN(pos) && spec_evasion_candidate_vt(pos, &ghost_m, validTargets)) ? 1 : 0)']}
+    # piece sections: exactly the non-pawn moves among the candidates, each once
+    _c = _evasion_contract(bool(_me))
+    _Q, _R, _B, _N = (('Piece_WQUEEN', 'Piece_WROOK', 'Piece_WBISHOP', 'Piece_WKNIGHT') if _me else ('Piece_BQUEEN', 'Piece_BROOK', 'Piece_BBISHOP', 'Piece_BKNIGHT'))
+    CONTRACTS['MoveGen_checkEvasions_pieces' + _sfx] = {
+        'requires': _mpre + ['ghost_hits0 == ghost_hits', 'ghost_ksq == spec_king_sq(pos->squares, %d)' % _me,
+                             'ghost_Q0 == pos->pieceTypeBB_[%s] && ghost_R0 == pos->pieceTypeBB_[%s] && ghost_B0 == pos->pieceTypeBB_[%s] && ghost_N0 == pos->pieceTypeBB_[%s]' % (_Q, _R, _B, _N),
+                             'ghost_tQ == spec_gm_slider(pos, Piece_WQUEEN, validTargets)', 'ghost_tR == spec_gm_slider(pos, Piece_WROOK, validTargets)', 'ghost_tB == spec_gm_slider(pos, Piece_WBISHOP, validTargets)',
+                             'ghost_tN == spec_gm_slider(pos, Piece_WKNIGHT, validTargets)', 'ghost_tK == spec_gm_slider(pos, Piece_WKING, ~0ULL)'],
         'assigns': ['moveList->size', 'ghost_hits'],
-        # exactly the pawn evasions for the given target filter, each once
-        'ensures': ['ghost_hits == __CPROVER_old(ghost_hits) + (spec_pawn_evasion(pos, &ghost_m, validTargets) ? 1 : 0)'],
-    }
+        'ensures': ['ghost_hits == __CPROVER_old(ghost_hits) + ((!GM_FROM_PAWN(pos) && spec_evasion_candidate_vt(pos, &ghost_m, validTargets)) ? 1 : 0)'],
+        'loops': _c['loops']}
+    # composition of the three fragments: the generated list is exactly the set of evasion candidates, each once
+    CONTRACTS['MoveGen_checkEvasions_tiled' + _sfx] = {
+        # the ghost values of the piece-section contract are defined here as well (free ghost variables: no restriction of the program state)
+        'requires': _pre + ['__CPROVER_is_fresh(moveList, sizeof(*moveList))', 'GM_OK', '0 <= ghost_hits && ghost_hits < 1000']
+                    + [r.replace('validTargets', 'spec_evasion_targets(pos)') for r in CONTRACTS['MoveGen_checkEvasions_pieces' + _sfx]['requires'] if r.startswith('ghost_')],
+        'assigns': ['moveList->size', 'ghost_hits'],
+        'ensures': ['ghost_hits == __CPROVER_old(ghost_hits) + (spec_evasion_candidate(pos, &ghost_m) ? 1 : 0)']}
 
 HARNESS = posunit.HARNESS.split('void h_setPiece')[0] + r'''
 void h_sqAttacked_w(void) { struct Position* p; int sq; U64 occ; havoc_tables(); MoveGen_sqAttacked_w(p, sq, occ); CANARY_POINT; }
@@ -404,6 +449,12 @@ void h_addPawnMoves_b(void) { struct MoveList* ml; int d; U64 mask; _Bool all = 
 HARNESS += r'''
 void h_evasion_pawns_w(void) { struct Position* p; struct MoveList* ml; U64 vt, occ; havoc_tables(); havoc_gm(); MoveGen_checkEvasions_pawns_w(p, ml, vt, occ); CANARY_POINT; }
 void h_evasion_pawns_b(void) { struct Position* p; struct MoveList* ml; U64 vt, occ; havoc_tables(); havoc_gm(); MoveGen_checkEvasions_pawns_b(p, ml, vt, occ); CANARY_POINT; }
+void h_evasion_head_w(void) { struct Position* p; U64 occ; havoc_tables(); MoveGen_checkEvasions_head_w(p, occ); CANARY_POINT; }
+void h_evasion_head_b(void) { struct Position* p; U64 occ; havoc_tables(); MoveGen_checkEvasions_head_b(p, occ); CANARY_POINT; }
+void h_evasion_pieces_w(void) { struct Position* p; struct MoveList* ml; U64 vt, occ; havoc_tables(); havoc_gm(); MoveGen_checkEvasions_pieces_w(p, ml, vt, occ); CANARY_POINT; }
+void h_evasion_pieces_b(void) { struct Position* p; struct MoveList* ml; U64 vt, occ; havoc_tables(); havoc_gm(); MoveGen_checkEvasions_pieces_b(p, ml, vt, occ); CANARY_POINT; }
+void h_evasion_tiled_w(void) { struct Position* p; struct MoveList* ml; havoc_tables(); havoc_gm(); MoveGen_checkEvasions_tiled_w(p, ml); CANARY_POINT; }
+void h_evasion_tiled_b(void) { struct Position* p; struct MoveList* ml; havoc_tables(); havoc_gm(); MoveGen_checkEvasions_tiled_b(p, ml); CANARY_POINT; }
 void h_checkEvasions_w(void) { struct Position* p; struct MoveList* ml; havoc_tables(); havoc_gm(); MoveGen_checkEvasions_w(p, ml); CANARY_POINT; }
 void h_checkEvasions_b(void) { struct Position* p; struct MoveList* ml; havoc_tables(); havoc_gm(); MoveGen_checkEvasions_b(p, ml); CANARY_POINT; }
 '''
@@ -426,6 +477,13 @@ _HELP = ('MoveGen_addMovesByMask', 'MoveGen_addPawnDoubleMovesByMask', 'MoveGen_
 for _sfx in ('_w', '_b'):
     GROUPS.append(Group('checkEvasions_pawns' + _sfx, 'h_evasion_pawns' + _sfx, enforce='MoveGen_checkEvasions_pawns' + _sfx,
                         replace=('MoveGen_addPawnDoubleMovesByMask', 'MoveGen_addPawnMovesByMask_w', 'MoveGen_addPawnMovesByMask_b'), min_props=10, timeout=3000))
+for _sfx in ('_w', '_b'):
+    GROUPS.append(Group('checkEvasions_head' + _sfx, 'h_evasion_head' + _sfx, enforce='MoveGen_checkEvasions_head' + _sfx,
+                        replace=_ATT + ('BitBoard_firstSquare', 'BitBoard_squaresBetween'), min_props=10, timeout=3000))
+    GROUPS.append(Group('checkEvasions_pieces' + _sfx, 'h_evasion_pieces' + _sfx, enforce='MoveGen_checkEvasions_pieces' + _sfx,
+                        replace=_ATT + ('MoveGen_addMovesByMask', 'BitBoard_extractSquare'), loop_contracts=True, min_props=10, expect_loop_props=4, timeout=3000))
+    GROUPS.append(Group('checkEvasions_tiled' + _sfx, 'h_evasion_tiled' + _sfx, enforce='MoveGen_checkEvasions_tiled' + _sfx,
+                        replace=('MoveGen_checkEvasions_head' + _sfx, 'MoveGen_checkEvasions_pieces' + _sfx, 'MoveGen_checkEvasions_pawns' + _sfx), min_props=5, timeout=3000))
 for _sfx in ('_w', '_b'):
     GROUPS.append(Group('checkEvasions' + _sfx, 'h_checkEvasions' + _sfx, enforce='MoveGen_checkEvasions' + _sfx, replace=_ATT + _HELP, loop_contracts=True,
                         min_props=20, expect_loop_props=4, timeout=3000))
